@@ -232,6 +232,7 @@ fn main() {
             warm_builtins(prng::mix(&[opts.seed, prng::purpose("warm")]));
             props::c04::run(&opts)
         }
+        "make-fixtures" => props::c14fix::make_fixtures(harness::VERIF_DIR),
         "c14-one" => {
             // debug: run the C14 oracles on a project directory
             let dir = std::path::PathBuf::from(&args[2]);
